@@ -193,8 +193,10 @@ func VerifHarness_C33_OpsAny_Thorough() { hMergedOps(2, 2, 3, hPointAndRangeKind
 
 func VerifHarness_C33_Ops3_Thorough() { hMergedOps(3, 2, 2, hPointAndRangeKinds, false) }
 
-func VerifHarness_C33_OpsBounded_Thorough() { hMergedOps(3, 2, 3, hPointAndRangeKinds, true) }
-func VerifHarness_C33_Ops4_Thorough()       { hMergedOps(4, 3, 2, hAllKinds, false) }
+func VerifHarness_C33_OpsBounded_Thorough() {
+	hMergedOpsP(3, 2, 3, true, []base.InternalKeyKind{hKSet, hKRDel}, true)
+}
+func VerifHarness_C33_ThreeLevels_Thorough() { hMergedOpsP(3, 3, 3, true, hPointAndRangeKinds, false) }
 
 // The bottom level is the real levelIter over two files (point keys only there).
 func hNoRangeDelAtBottom(h []hWrite, L int) {
